@@ -55,6 +55,34 @@ theorem sf_def (n0 n1 : ℕ) (φ : ℕ → ℕ → ℝ) (nb step : Option ℕ) (
   rw [calcSF_eq_empty_zeros]
   exact sf_def_any_buffer n0 n1 φ nb step hs _ (by simp) j h1 hj
 
+/-- **sf_def_overlap** — the meaningful part of `sf_def`.  `sf_def` itself has no overlap hypothesis and is therefore true
+for a lag without overlapping rows only through the convention `0/0 = 0` of Lean's reals (see `sf_no_overlap`).  Here the lag
+overlaps the phase (`j*step < n0`) and there is at least one column: the number of averaged terms is positive and entry `j`
+TIMES that number is the sum of the squared differences at shift `j*step` (division-free, so no convention is involved). -/
+theorem sf_def_overlap (n0 n1 : ℕ) (φ : ℕ → ℕ → ℝ) (nb step : Option ℕ) (hs : 1 ≤ step.getD 1) (j : ℕ) (h1 : 1 ≤ j)
+    (hj : j < sfXm nb n1 (step.getD 1)) (hov : j * step.getD 1 < n0) (hn1 : 0 < n1) :
+    ∃ v : ℝ, (calcSF n0 n1 φ nb step)[j]? = some v ∧ 0 < (n0 - j * step.getD 1) * n1 ∧
+      v * (((n0 - j * step.getD 1) * n1 : ℕ) : ℝ)
+        = ∑ r ∈ range (n0 - j * step.getD 1), ∑ c ∈ range n1, (φ r c - φ (r + j * step.getD 1) c) ^ 2 := by
+  have hpos : 0 < (n0 - j * step.getD 1) * n1 := Nat.mul_pos (by omega) hn1
+  refine ⟨_, sf_def n0 n1 φ nb step hs j h1 hj, hpos, ?_⟩
+  have hne : (((n0 - j * step.getD 1) * n1 : ℕ) : ℝ) ≠ 0 := by exact_mod_cast hpos.ne'
+  unfold msd
+  exact div_mul_cancel₀ _ hne
+
+/-- **sf_no_overlap** — the empty case split off from `sf_def`: for a lag with no overlapping rows (`n0 ≤ j*step`; possible
+because the code bounds the lags by `shape[1]` while it shifts along axis 0) there is nothing to average — the count of
+terms is 0 and the model's entry is the junk value `0/0` (`= 0` in Lean's reals; the real code returns NaN with a
+RuntimeWarning).  Nothing is claimed about the real code there; the oracle skips those lags. -/
+theorem sf_no_overlap (n0 n1 : ℕ) (φ : ℕ → ℕ → ℝ) (nb step : Option ℕ) (hs : 1 ≤ step.getD 1) (j : ℕ) (h1 : 1 ≤ j)
+    (hj : j < sfXm nb n1 (step.getD 1)) (hno : n0 ≤ j * step.getD 1) :
+    (n0 - j * step.getD 1) * n1 = 0 ∧ (calcSF n0 n1 φ nb step)[j]? = some ((0 : ℝ) / ((0 : ℕ) : ℝ)) := by
+  have h0 : n0 - j * step.getD 1 = 0 := Nat.sub_eq_zero_of_le hno
+  refine ⟨by rw [h0, Nat.zero_mul], ?_⟩
+  rw [sf_def n0 n1 φ nb step hs j h1 hj]
+  unfold msd
+  simp [h0]
+
 /-- the loop never writes entry 0: the pinned function returns whatever the buffer held there (D16) -/
 theorem sf_zero_lag_is_buffer (n0 n1 : ℕ) (φ : ℕ → ℕ → ℝ) (nb step : Option ℕ) (hs : 1 ≤ step.getD 1)
     (u : Array ℝ) (hu : u.size = sfXm nb n1 (step.getD 1)) :
